@@ -87,6 +87,13 @@ func c17Variants() []c17Variant {
 		{Name: "trimpath", Flags: []string{"-trimpath"}, Print: "print", Thorough: true},
 		{Name: "gcflags-noinline", Flags: []string{"-gcflags=all=-l"}, Print: "print", Thorough: true},
 		{Name: "toolchain-go1.26.8", GoBin: "go1.26.8", Env: []string{"GOTOOLCHAIN=local"}, Print: "print"},
+		// a program that writes into every slice the package hands out before it hashes (they are the caller's to keep)
+		{Name: "writes-into-returned-slices", Print: "print",
+			Pre: "func init() {\n\tfor _, b := range [][]byte{secp256k1.Order(), secp256k1.Base().Encode(), secp256k1.Base().EncodeUncompressed(), secp256k1.NewElement().Encode(), secp256k1.NewScalar().Encode(), secp256k1.NewScalar().One().Encode(), secp256k1.Base().XCoordinate()} {\n\t\tfull := b[:cap(b)]\n\t\tfor i, j := 0, len(full)-1; i < j; i, j = i+1, j-1 {\n\t\t\tfull[i], full[j] = full[j]^0x5a, full[i]^0x5a\n\t\t}\n\t}\n}"},
+		// a program that uses the exported map-to-curve functions directly, on the exceptional inputs, before it hashes (the
+		// field element type is internal, so the program builds the zero value by reflection)
+		{Name: "calls-map-functions-first", Imports: []string{"reflect"}, Print: "print",
+			Pre: "func init() {\n\tsswu := reflect.ValueOf(secp256k1.SSWU)\n\tfor i := 0; i < 3; i++ {\n\t\tu := reflect.New(sswu.Type().In(0).Elem()) // u = 0: the exceptional input\n\t\tq := sswu.Call([]reflect.Value{u})[0]\n\t\treflect.ValueOf(secp256k1.IsogenySecp256k13iso).Call([]reflect.Value{q})\n\t}\n}"},
 		// the machine the program runs on: one CPU (a small container), an aggressive collector
 		{Name: "run-gomaxprocs-1", RunEnv: []string{"GOMAXPROCS=1"}, Print: "print"},
 		{Name: "run-gomaxprocs-2-gogc-1", RunEnv: []string{"GOMAXPROCS=2", "GOGC=1"}, Print: "print"},
